@@ -1611,6 +1611,23 @@ class Composite(Parameter):
     def _validate(self, val):
         self._validate_attribs(val, self.attribs)
 
+    @instance_descriptor
+    def __set__(self, obj, val):
+        self._validate(val)
+        # The constituents all take their new values or none does: a value
+        # one of them refuses is found before any of them is assigned
+        # (references are judged by the parameter they are assigned to).
+        holder = obj if obj is not None else (self.owner if self.owner is not None else self.objtype)
+        if holder is not None:
+            from .parameterized import resolve_ref
+            existing = holder.param.objects('existing')
+            for a, v in zip(self.attribs, val):
+                p = existing.get(a)
+                if p is None or (p.allow_refs and (callable(v) or resolve_ref(v, recursive=p.nested_refs))):
+                    continue
+                p._validate(v)
+        super().__set__(obj, val)
+
     def _post_setter(self, obj, val):
         if obj is None:
             # (the class this Parameter object belongs to: a subclass that
